@@ -623,7 +623,9 @@ type c15Module struct {
 }
 
 // c15WriteModule writes go.mod, lib/lib.go, client/client.go and drv/main.go for the pool plus fns.
-func c15WriteModule(dir string, fns []*c15Fn) (*c15Module, error) {
+// The pool functions are always present (they are callees); they are executed and get
+// comparison functions only if withPool is set.
+func c15WriteModule(dir string, fns []*c15Fn, withPool bool) (*c15Module, error) {
 	mod := &c15Module{Dir: dir, ByName: map[string]*c15Fn{}, ObsLine: map[string]map[int]int{"lib.go": {}, "client.go": {}},
 		Source: map[string]string{}}
 	all := append(append([]*c15Fn(nil), c15Pool...), fns...)
@@ -668,6 +670,10 @@ func c15WriteModule(dir string, fns []*c15Fn) (*c15Module, error) {
 		hasIface := false
 		for _, k := range fn.Spec.Res {
 			hasIface = hasIface || c15IsIface(k)
+		}
+		isPool := c15PoolByName[fn.Spec.Name] == fn
+		if isPool && !withPool {
+			continue
 		}
 		if hasIface {
 			cmpName = "C" + fn.Spec.Name
@@ -1177,7 +1183,7 @@ func c15Judge(mod *c15Module, a *c15Analysis, g *c15Ground, judge func(fn *c15Fn
 // c15Process generates, analyses, runs and judges one batch. It returns the findings, or infra.
 func c15Process(dir, cache string, fns []*c15Fn, judgePool bool, st *c15Stats, stMu *sync.Mutex) (finds []c15Finding, infra string, crashed bool) {
 	os.RemoveAll(dir)
-	mod, err := c15WriteModule(dir, fns)
+	mod, err := c15WriteModule(dir, fns, judgePool)
 	if err != nil {
 		return nil, "cannot write module: " + err.Error(), false
 	}
